@@ -568,20 +568,20 @@ class Ace(AceBase):
 
     def _shadow_of__srcport(self, other: Ace) -> bool:
         """Return True if self.srcport is in the shadow of the  other.srcport."""
-        if top := set(other.srcport.ports):
-            if bottom := set(self._srcport.ports):
-                diff = bottom.intersection(top)
-                return diff == bottom
-            return False
+        if other.srcport.operator:
+            top = set(other.srcport.ports)
+            if self._srcport.operator:
+                return set(self._srcport.ports).issubset(top)
+            return len(top) == 65535  # bottom without ports matches all ports
         return True
 
     def _shadow_of__dstport(self, other: Ace) -> bool:
         """Return True if self.dstport is in the shadow of the  other.dstport."""
-        if top := set(other.dstport.ports):
-            if bottom := set(self._dstport.ports):
-                diff = bottom.intersection(top)
-                return diff == bottom
-            return False
+        if other.dstport.operator:
+            top = set(other.dstport.ports)
+            if self._dstport.operator:
+                return set(self._dstport.ports).issubset(top)
+            return len(top) == 65535  # bottom without ports matches all ports
         return True
 
     def _shadow_of__option(self, other: Ace) -> bool:
